@@ -41,7 +41,8 @@ Record conn_in := {
   ci_connect_ok : bool;         (* the connect itself succeeds *)
   ci_resolved : list ip;        (* resolver oracle: what a domain-name target resolves to *)
   ci_target_out : bytes;        (* what the target sends back before closing *)
-  ci_target_reset : bool        (* the target ends with a reset instead of a close, after having read the whole upload and sent its output *)
+  ci_target_reset : bool;       (* the target ends with a reset instead of a close, after having read the whole upload and sent its output *)
+  ci_client_reset : bool        (* the client ends with a reset instead of a half-close, after everything it sent was relayed and it has read the target's output *)
 }.
 
 (* the validating dialer (net.Dialer with a Control hook): the addresses of the target — the
@@ -96,7 +97,9 @@ Definition after_auth (e : env) (ci : conn_in) (k : skey) : list ev * N * (Z * Z
                   (* the copy from the target ends with an error exactly when the target reset; the
                      upload direction had ended cleanly, so that error is the one reported *)
                   ([EDial a i; EToTarget payload; ETargetFin; EToClient (ci_target_out ci)],
-                   (if ci_target_reset ci then st_relay_target else st_ok), (zlen payload, zlen (ci_target_out ci)), AfterRelay)
+                   (if ci_client_reset ci then st_relay_client          (* the copy from the client ended with an error: reported first *)
+                    else if ci_target_reset ci then st_relay_target else st_ok),
+                   (zlen payload, zlen (ci_target_out ci)), AfterRelay)
               end
           end
       end
